@@ -17,7 +17,7 @@ namespace GFO
 
 structure SmboCfg where
   replacement : Bool
-  trainsOnEmpty : Bool        -- ForestOptimizer: `_training` returns early when `Y_sample` is empty (then predicts unfitted)
+  trainsOnEmpty : Bool        -- a class whose `_training` draws a `move_random` on an empty `Y_sample` and then predicts unfitted (ForestOptimizer before its fix; no class now)
   lipschitz : Bool := false   -- LipschitzOptimizer: its own `iterate` - no training step; `cdist` refuses an empty `X_sample`
   geo : Geo
 deriving Repr, DecidableEq, Inhabited
@@ -84,16 +84,16 @@ def trainTape (cfg : SmboCfg) (s : SmboSt) : Except Err Tape :=
 /-- `_propose_location()` -/
 def smboPropose (cfg : SmboCfg) (s : SmboSt) : Except Err (Pos × Tape) :=
   if cfg.lipschitz then
-    -- `pos_comb = self._sampling(…)`; `LipschitzFunction.calculate(X_sample, …)` (scipy's cdist raises ValueError on an empty
-    -- sample array - the known C15 finding); the first row of the descending order of the upper bounds (IndexError when no
-    -- candidate is left)
+    -- without a valid sample: a random position; else `pos_comb = self._sampling(…)`, `LipschitzFunction.calculate(X_sample, …)`, the first
+    -- row of the descending order of the upper bounds (IndexError when no candidate is left)
+    if s.sm.X = [] then moveRandomLoop s.tape          -- (after fix: `if len(self.X_sample) == 0: return self.move_random()`)
+    else
     match s.tape with
     | .parents idxs :: rest =>
       match sampleCands s.sm.cands idxs with
       | .error e => .error e
       | .ok pc =>
-        if s.sm.X = [] then .error .valueError
-        else if s.flat ∧ pc = [] then .error .valueError        -- cdist refuses the 1-D empty candidate array as well
+        if s.flat ∧ pc = [] then .error .valueError        -- cdist refuses the 1-D empty candidate array
         else pickByAcq pc rest
     | [] => .error .needMore
     | _ => .error (protocol "_sampling")
